@@ -127,7 +127,9 @@ class Finders:
     if record_type is None:
       return self.lines
     else:
-      d = self._records[record_type]
+      # no entry is created for a record type which is not there: the
+      # order of the entries is the order in which custom records are written
+      d = self._records.get(record_type, {})
       if record_type == "F":
         retval = []
         for v in d.values():
